@@ -11,7 +11,7 @@ from sx.fsmodel import FS, Token
 PROPERTY = "C13"
 BOUNDS = {
     "quick": "(1) registries built by feeding 2 + 2 received lines to a real 2.2 gateway: node presentation (type sym [10,99]), child presentation (type sym [10,99], description symbolic |s|<=1), set (payload symbolic |s|<=1), battery (8-text class list incl. out-of-range and non-numeric), sketch name / version (symbolic |s|<=1), heartbeat (4 texts), pre-sleep; then save -> load into an empty registry, field-by-field comparison; values stay symbolic through a structure-preserving json fake (the battery range is decided for all integers), every witness re-run on real JSON text; (2) directly constructed registries: node ids {0,1,254,255}, node/child type sym [-2^40,2^40], heartbeat sym, battery sym [0,100], sleeping symbolic, value types {0,49,-1,2^33}; (3) legacy (pymysensors) layout == native layout; (4) 12 awkward strings (quotes, backslash, control, non-ASCII, astral, lone surrogate) through the real json",
-    "thorough": "as quick with symbolic strings |s|<=2 in directly constructed / legacy registries, plus histories of 2 + 3 lines (|s|<=1; first line from {node presentation, set, heartbeat, pre-sleep}, lines 2 and 3 from {set, battery, sketch name, pre-sleep})",
+    "thorough": "as quick (2 + 2 received lines, |s|<=1) with symbolic strings |s|<=2 in directly constructed / legacy registries and a choice of two version texts; 3-line histories were measured not to exhaust within the budget and are outside the claim",
 }
 REALISED = ["node / child ids and value types are concrete (marshmallow's Dict field hashes the keys, which would realise them anyway)", "battery / heartbeat / version texts are class lists"]
 STUBS = ["persistence.aiofiles -> in-memory file system", "persistence.json -> structure-preserving fake in symbolic runs (contract: loads(dumps(x)) == x with keys stringified); concrete twin uses the real json", "RecTransport"]
@@ -29,7 +29,7 @@ def partitions(tier):
         for bh in ((0, 1, 2, 3) if first == 3 else (None,)):
             parts.append({"name": "history-f%d%s" % (first, "" if bh is None else "abcd"[bh]), "fn": "sym_history", "steps": 2, "first": first,
                           "bhalf": bh, "maxlen": 1, "budget": 700 if q else 3600, "cost": 8})
-            if not q and first in (0, 2, 6, 7):
+            if False:  # 3-line histories did not exhaust within the thorough budget on this machine (measured): not registered
                 parts.append({"name": "history3-f%d%s" % (first, "" if bh is None else "abcd"[bh]), "fn": "sym_history", "steps": 3, "first": first,
                               "bhalf": bh, "maxlen": 1, "budget": 3600, "cost": 20})
     for nid in (0, 1, 254, 255):
@@ -73,7 +73,7 @@ def sym_history(inp, part):
     gw.protocol_version = "2.2"
     L = part["maxlen"]
     # canonical prefix: node 1 presented (so that later reports have a node)
-    thorough = part.get("tier") == "thorough"
+    thorough = False  # the thorough tier keeps the quick dimensions for histories (wider ones did not exhaust in budget)
     lines = [M.line(1, 255, 0, 0, inp.int("ntype", 10, 99) if not thorough else inp.int("ntype", 0, 255), VERSION_TEXTS[inp.pick("nver", len(VERSION_TEXTS))] if thorough else "2.2"),
              M.line(1, 3, 0, 0, inp.int("ctype", 10, 99) if not thorough else inp.int("ctype", 0, 255), inp.str("desc", L, exclude=LINE_TERMINATORS, no_trailing_ws=True))]
     for i in range(part["steps"]):
